@@ -45,11 +45,16 @@ CLAIMS = {
             NOTE, TECH, "6 C12 / AB.9"),
     'C13': ("Lean proof of the bit-set semantics of wide-mask rows (pack_testBit, set/clear/xor/and/check specs, "
             "validity iff non-empty, width rules); correspondence over widths and byte-boundary bits with every bit "
-            "read back", NOTE, TECH, "6 C13"),
+            "read back; API LEVEL (39 theorems): set / clear / check / bit-list operators as set operations on per-pixel bit "
+            "sets, validity = non-empty set, exact error conditions, refused calls store nothing", NOTE, TECH,
+            "6 C13 / AB.9"),
     'C17': ("Lean proof that the MOC writer covers exactly the valid set with disjoint cells no coarser than the "
             "coverage order and that read(write) restores it (moc_cover, moc_disjoint, moc_order_ge_cov, moc_maximal, "
             "moc_read_write), with witnesses for the two repaired defects; correspondence of UNIQ columns and "
-            "read-back maps", NOTE + "float64 log2 flooring and the FITS table layer are trusted.", TECH, "6 C17"),
+            "read-back maps; DRIVER LEVEL (52 theorems): the UNIQ column written for a map of any kind is an exact, disjoint, "
+            "maximal cover of its valid set, the reader's order and map, the round trip as protocol steps, exact NUNIQ "
+            "coding for every order", NOTE + "the FITS table layer is trusted; the library's float64 log2 is NOT modelled "
+            "(the model uses exact Nat.log2) — the deviation beyond 2^50 was finding F71, fixed.", TECH, "6 C17 / AB.9"),
     'C03': ("Lean proof of the serialisation logic: full read = identity, coverage read = coverage mask, partial read = "
             "restriction to the requested covered coverage pixels with exact rejection conditions (read_partial_spec, "
             "read_partial_rejects_iff), read-back map interchangeable (C10.Same); correspondence incl. raw astropy "
@@ -85,7 +90,11 @@ CLAIMS = {
     'C09': ("Lean proof over a heap model with the code's sharing pattern (shared immutable coverage objects, one "
             "buffer per map, copy-on-append) that no step changes what another handle denotes (mutate_frame, "
             "produce_frame, no_tie for every continuation); the sharing pattern itself is checked by two-phase "
-            "correspondence histories over every producing operation", NOTE, TECH, "6 C09"),
+            "correspondence histories over every producing operation; WORLD LEVEL: every protocol line obeys the frame of "
+            "its syntactic class — producing operations leave every other name exactly unchanged (all arguments, cache "
+            "included), in-place operations change only their target (through a view: exactly one field of the parent), "
+            "file writers change no map; no_tie_world / result_independent for every continuation", NOTE, TECH,
+            "6 C09 / AB.9"),
     'C10': ("Lean proof that every modelled operation maps content-equal representations (Same) to content-equal "
             "results and equal query answers, for every continuation (12 theorems incl. history_interchangeable); "
             "correspondence over twin construction routes with a shared continuation", NOTE + "runtime representation "
